@@ -439,7 +439,24 @@ def r1c_fresh_holders(ctx, prog, rule_id='C05.R1c'):
                 return None
             loops = find(g['body'], []) or []
             decl_in = None
-            m = re.search(r'@p?(\d+)$', c['args'][0].get('id', ''))
+            holder = c['args'][0]
+            # a reference declared inside the loop names whatever it is bound to: follow it to the object (a holder declared before the loop is not made fresh by an alias)
+            for _ in range(3):
+                bound = None
+                for n_ in walk(g['body']):
+                    if n_.get('k') == 'Decl':
+                        for d_ in n_['decls']:
+                            if d_['var'].get('id') == holder.get('id') and d_.get('type', '').rstrip().endswith('&') and d_.get('init') is not None:
+                                i_ = d_['init']
+                                while i_.get('k') in ('Cast', 'Paren') and i_.get('e') is not None:
+                                    i_ = i_['e']
+                                if i_.get('k') == 'Var':
+                                    bound = i_
+                if bound is None:
+                    break
+                holder = bound
+            v = holder['name']
+            m = re.search(r'@p?(\d+)$', holder.get('id', ''))
             if m and loops:
                 dl = int(m.group(1))
                 lb = loops[-1]['body']
